@@ -92,7 +92,8 @@ CHECKS.update({
                 text="BattRestored is an invariant of Batt.tla (every terminal state carries the user's source parameters). The real batt_life is run with a failure injected at the k-th probe / "
                      "deplete / solver call and on normal return; TLC requires the battery Source to be unchanged afterwards. Random interleavings of all eleven analyses (argument variety) are "
                      "recorded: projected state, deep digest of all payloads and argument objects must be unchanged, solve() before = after = repeated, exactly.",
-                note="fault points: k in 1..4 per callback kind; deep digest covers node payloads, registries, edges", design="DESIGN.md 7 (C17)", category="model_checking"),
+                note="fault points: k in 1..4 per callback kind (Exception and BaseException); deep digest = parameters, limits, table data of the interpolators, the seven registries, edges "
+                     "(private working state such as a lookup memo is not 'the system'); after the analyses one edit of any kind, then every report against a rebuilt system", design="DESIGN.md 7 (C17)", category="model_checking"),
     "C18": dict(technique="TLA+ state machine of batt_life (Batt.tla, TLC) + trace validation of every callback of recorded runs, solver calls as internal steps (TraceBatt.tla)",
                 text="PhaseCycle, LogShape, OnlySourceDepleted hold on Batt.tla. Recorded runs (any source as battery, 0/2/3 phases, numeric and scripted battery models, several cutoffs) must follow the "
                      "machine: probe, then one depletion per step exactly while the battery is alive (the solver calls in between are internal steps: where observed, the source carries the battery's "
@@ -125,7 +126,8 @@ CHECKS.update({
     "C19": dict(technique="trace validation by TLC (TraceDiag.tla) of diagrams rendered to dot source and parsed back",
                 text="For generated systems and random configurations TLC checks the rendered node / edge / cluster sets against the abstract state, the default -> kind -> name attribute precedence, cluster "
                      "attributes, unchanged caller configuration and, for heat diagrams, labels (three significant digits of the duration-weighted loss), colour order, extremes and the legend.",
-                note="rendered through fname=*.raw (dot source), graphviz layout not exercised; component names from the generator's alphabet", design="DESIGN.md 7 (C19)"),
+                note="rendered through fname=*.raw (dot source), graphviz layout not exercised; the legend is the one rendered node that is no component, warm / cold are the ends of the "
+                     "gradient it shows; configured attributes must be present with the precedence's value (attributes the renderer adds on its own are not judged)", design="DESIGN.md 7 (C19)"),
 })
 
 NOT_BUILT = "check not built yet in this round (framework under construction; see DESIGN.md section 13)"
